@@ -126,6 +126,19 @@ pub fn emit(tier: &str, seed: u64, path: &str) -> Report {
                 r.count(&format!("{} builder tokens emitted", p.name()));
             }
         }
+        // ONE builder whose footer is changed before the build: the token must follow the footer in force (incl. back to empty)
+        for (k, (first, last)) in [("old-footer", ""), ("", "new-footer"), ("old-footer", " "), ("old-footer", "new-footer"), (" ", "")].iter().enumerate() {
+            let key = pools.key(p, k % pools.count(p));
+            let ops = vec![GOp::Set(Claim::Custom("data".into(), json!("footer changed"))), GOp::Footer(first.to_string()), GOp::Footer(last.to_string()), GOp::Build];
+            let out = generic_run(p, &key, &ops).pop().unwrap_or(Out::Err("no build".into()));
+            r.evaluations += 1;
+            id += 1;
+            line(&mut f, json!({"id": id, "layer": "generic", "p": p.name(), "key": key, "nonce": Value::Null, "msg": Value::Null, "footer": last, "ia": Value::Null, "token": out.ok(),
+                "error": match &out { Out::Ok(_) => None, o => Some(o.brief()) }}));
+            if out.is_ok() {
+                r.count(&format!("{} builder tokens emitted", p.name()));
+            }
+        }
     }
     let _ = f.flush();
     r
